@@ -50,6 +50,9 @@ WireEquiv(a, b) ==
       /\ (a.parseOK => VEqF(a.parsed, b.parsed))
       \* (the scripted handlers of the two packages pick "the k-th response" among the implementers ordered by the status
       \* each writes - driver.ProbeStatuses -, so equal seeds mean the same documented response in both packages)
+      \* the two packages offer the same response values: the scripted handlers fill the response types from the same
+      \* seed, so a difference means a declaration (type, required flag) changed with the rewrite
+      /\ ((a.hasResp /\ b.hasResp) => VEqF(a.responded, b.responded))
       /\ ((a.hasResp /\ b.hasResp /\ VEqF(a.responded, b.responded)) =>
               /\ DoneEq(a.done, b.done)
               /\ a.retOK = b.retOK /\ (a.retOK => VEqF(a.ret, b.ret)))
